@@ -1,12 +1,174 @@
-// Package c10: correspondence harness of C10 (stub: replaced when C10 is built).
+// Package c10: user source files are left intact (behavioural correspondence).
+//
+// Every scenario is a directory tree (the processed package, a sub-package, a sibling
+// package, non-Go files, read-only files, files excluded by build constraints).  The tree is
+// snapshotted (names, modes, sha256, mtimes) before and after goderive; anything but
+// derived.gen.go of the processed package that differs must be a user file in which a call
+// was renamed under -autoname/-dedup, and its bytes are compared with an independent
+// expectation: go/format of the original bytes with the identifiers substituted by position
+// (positions from a separate go/parser parse).  The extracted Coq model checks the byte-level
+// claim (rewrite observations) and predicts, from the plan of a generated package, the
+// outcome class, which files are rewritten and every new name (effects observations).
 package c10
 
 import (
+	"encoding/json"
 	"fmt"
+	"os"
+	"path/filepath"
+	"sort"
+	"strings"
 
 	"verifharness/internal/hx"
 )
 
+var flagCombos = [][]string{nil, {"-autoname"}, {"-dedup"}, {"-autoname", "-dedup"}}
+
 func Run(cfg hx.Config) (*hx.Meta, error) {
-	return nil, fmt.Errorf("C10: harness not built yet")
+	meta := &hx.Meta{Property: "C10", Seed: cfg.Seed, Tier: cfg.Tier}
+	r := hx.NewRand(cfg.Seed)
+	var obs strings.Builder
+	rn := &runner{cfg: cfg, meta: meta, obs: &obs}
+
+	// 1. regression corpus (former failing inputs) and the fixed hand-written scenarios
+	var fixedSc []*scenario
+	if ents, err := os.ReadDir(cfg.Corpus); err == nil {
+		for _, e := range ents {
+			if !strings.HasSuffix(e.Name(), ".json") {
+				continue
+			}
+			b, err := os.ReadFile(filepath.Join(cfg.Corpus, e.Name()))
+			if err != nil {
+				return nil, err
+			}
+			sc := &scenario{}
+			if err := json.Unmarshal(b, sc); err != nil {
+				return nil, fmt.Errorf("corpus %s: %v", e.Name(), err)
+			}
+			sc.Name = "corpus/" + strings.TrimSuffix(e.Name(), ".json")
+			if sc.PkgDir == "" {
+				sc.PkgDir = "."
+			}
+			fixedSc = append(fixedSc, sc)
+			meta.Count("corpus")
+		}
+	}
+	fixedSc = append(fixedSc, handWritten()...)
+	for i, sc := range fixedSc {
+		combos := [][]string{sc.Flags}
+		if sc.Flags == nil {
+			combos = flagCombos
+		}
+		for j, fl := range combos {
+			s2 := *sc
+			s2.Flags = fl
+			root := filepath.Join(cfg.Work, fmt.Sprintf("fixed%02d_%d", i, j))
+			if _, err := rn.run(root, &s2, false); err != nil {
+				return nil, err
+			}
+			meta.Packages++
+			meta.Count("scenario/" + s2.classOr("hand-written"))
+		}
+	}
+
+	// 2. generated packages with a plan: outcomes x flags x renamings x formatting
+	n := 21
+	if cfg.Tier == "thorough" {
+		n = 300
+	}
+	for i := 0; i < n; i++ {
+		o := genOpts{
+			messy:     i%2 == 1,
+			layout:    i%7 == 5,
+			nfiles:    1 + r.Intn(3),
+			ncalls:    3 + r.Intn(8),
+			testFile:  r.Intn(3) == 0,
+			buildTag:  r.Intn(3) == 0,
+			reserved:  r.Intn(3) == 0,
+			noFinalNL: r.Intn(2) == 0,
+		}
+		switch i % 7 {
+		case 2:
+			o.inject = "arity"
+		case 3:
+			o.inject = "generr"
+		case 4:
+			o.loadErr = []string{"garbage", "otherpkg"}[r.Intn(2)]
+		}
+		sc := genPlanned(r, i, o)
+		if o.reserved {
+			meta.Count("plan/with-reserved-names")
+		}
+		if o.testFile {
+			meta.Count("plan/with-test-file")
+		}
+		if o.messy {
+			meta.Count("plan/unformatted-sources")
+		} else {
+			meta.Count("plan/gofmt-formatted-sources")
+		}
+		if o.layout {
+			meta.Count("plan/comments-or-breaks-before-calls")
+		}
+		meta.Count("plan/inject=" + o.inject + o.loadErr)
+		for j, fl := range flagCombos {
+			s2 := *sc
+			s2.Flags = fl
+			root := filepath.Join(cfg.Work, fmt.Sprintf("%s_%d", sc.Name, j))
+			out, err := rn.run(root, &s2, false)
+			if err != nil {
+				return nil, err
+			}
+			meta.Packages++
+			obs.WriteString(effectsLine(&s2, nil, false, out))
+			meta.Cases++
+			if j == 3 {
+				meta.Sample(fmt.Sprintf("%s flags=%v outcome=%s rewritten=%v", sc.Name, fl, out.class, out.touched))
+			}
+			// a second run over the result: with the (possibly renamed) call sites as they are now
+			if out.class == "ok" || (i%3 == 0 && out.class != "crash") {
+				cur := out.names
+				out2, err := rn.run(root, &s2, true)
+				if err != nil {
+					return nil, err
+				}
+				obs.WriteString(effectsLine(&s2, cur, out.derived, out2))
+				meta.Cases++
+				meta.Count("second-run")
+				if out.class == "ok" && len(out2.touched) > 0 {
+					rn.direct(&s2, "c10-unexpected-change", fmt.Sprintf("second run over a successful result rewrote %v again", out2.touched), out2.out, nil)
+				}
+			}
+			// the whole tree from the module root
+			if i%5 == 0 && j == 3 {
+				s3 := s2
+				s3.PkgDir = "."
+				s3.Args = []string{"./..."}
+				s3.Name = sc.Name + "-dotdotdot"
+				if _, err := rn.run(filepath.Join(cfg.Work, s3.Name), &s3, false); err != nil {
+					return nil, err
+				}
+				meta.Count("scenario/whole-tree")
+			}
+		}
+	}
+
+	path := filepath.Join(cfg.Out, "c10.obs")
+	if err := os.WriteFile(path, []byte(obs.String()), 0o644); err != nil {
+		return nil, err
+	}
+	meta.ObsFiles = append(meta.ObsFiles, path)
+	var keys []string
+	for k := range meta.Distribution {
+		keys = append(keys, k)
+	}
+	sort.Strings(keys)
+	return meta, nil
+}
+
+func (sc *scenario) classOr(d string) string {
+	if sc.Class != "" {
+		return sc.Class
+	}
+	return d
 }
